@@ -128,6 +128,24 @@ impl Engine {
         let _ = self.child.wait();
     }
 
+    /// per-thread (tid, state char, cpu ticks) from /proc
+    pub fn proc_threads(&self) -> Option<Vec<(u32, char, u64)>> {
+        let pid = self.pid();
+        let mut out = vec![];
+        let dir = std::fs::read_dir(format!("/proc/{pid}/task")).ok()?;
+        for t in dir.flatten() {
+            let tid: u32 = t.file_name().to_string_lossy().parse().ok()?;
+            let Ok(stat) = std::fs::read_to_string(t.path().join("stat")) else { continue };
+            let rest = &stat[stat.rfind(')')? + 2..];
+            let f: Vec<&str> = rest.split_whitespace().collect();
+            let state = f.first().and_then(|s| s.chars().next()).unwrap_or('?');
+            let utime: u64 = f.get(11)?.parse().ok()?;
+            let stime: u64 = f.get(12)?.parse().ok()?;
+            out.push((tid, state, utime + stime));
+        }
+        Some(out)
+    }
+
     /// (total cpu ticks, all threads sleeping) from /proc: is the process blocked rather than slow?
     pub fn proc_state(&self) -> Option<(u64, bool)> {
         let pid = self.pid();
